@@ -1,4 +1,5 @@
 import PyxisVerif.Props.C13
+import PyxisVerif.Props.CaseLift2
 #print axioms PyxisVerif.C13.field_names_distinct
 #print axioms PyxisVerif.C13.vfuncs_have_receiver
 #print axioms PyxisVerif.C13.base_fields_named
@@ -7,3 +8,12 @@ import PyxisVerif.Props.C13
 #print axioms PyxisVerif.C13.copy_implies_clone
 #print axioms PyxisVerif.C13.defaultable_fields
 #print axioms PyxisVerif.C13.printed_paths_exist
+#print axioms PyxisVerif.C13.case_field_names_distinct
+#print axioms PyxisVerif.C13.case_base_fields_named
+#print axioms PyxisVerif.C13.case_enum_cases_distinct
+#print axioms PyxisVerif.C13.case_align_is_pow2
+#print axioms PyxisVerif.C13.case_align_is_pow2_block
+#print axioms PyxisVerif.C13.case_copy_implies_clone
+#print axioms PyxisVerif.C13.case_enum_copy_implies_clone
+#print axioms PyxisVerif.C13.case_defaultable_fields
+#print axioms PyxisVerif.C13.case_vfuncs_have_receiver
